@@ -29,9 +29,9 @@ def main():
     shdemo = os.path.exists(os.path.join(wt, demo + ".sh"))
     run_demo = ("bash ./%s.sh" % demo) if shdemo else ("cargo run --offline --release --example %s --features timestamps_96" % demo)
     rc_with, out_with = sh("bash -c '%s > /tmp/_demo.out 2>&1; echo rc=$?; tail -8 /tmp/_demo.out'" % run_demo, cwd=wt)
-    sh("git stash push -- q_compress/src q_compress_cli/src", cwd=wt)
+    sh("git apply -R patch.diff", cwd=wt)   # not `git stash`: the stash is shared by all worktrees of a repository
     rc_wo, out_wo = sh("bash -c '%s > /tmp/_demo.out 2>&1; echo rc=$?; tail -4 /tmp/_demo.out'" % run_demo, cwd=wt)
-    sh("git stash pop", cwd=wt)
+    sh("git apply patch.diff", cwd=wt)
     meta["confirmed"]["demo_with_change"] = out_with.strip().split("\n")[:10]
     meta["confirmed"]["demo_without_change"] = out_wo.strip().split("\n")[:6]
     fails_with = "rc=0" not in out_with.split("\n")[0]
